@@ -4,6 +4,6 @@ go 1.18
 
 require github.com/theQRL/go-qrllib v0.0.0
 
-require golang.org/x/crypto v0.17.0 // indirect
+require golang.org/x/crypto v0.17.0
 
 replace github.com/theQRL/go-qrllib => /repo
